@@ -3,7 +3,6 @@
   in the socket's slots together with the ids of all completions produced so far are a
   permutation of the ids given to initiating calls.
 -/
-import SimVerif.HandlerSys
 import SimVerif.Lemmas.HandlersUdp
 
 namespace SimVerif
